@@ -26,7 +26,7 @@ DECIDING = ['binary', 'aggregate', 'project', 'condition', 'expand', 'transpose'
 ASSUMPTIONS = ['factor / factor is defined for divisor domain within dividend domain, 0 where the divisor is 0 (divisors >= 0)',
                'log(out=...) vs log() compared on values >= 1e-80 (the pure form adds 1e-100 by design)',
                'finite operands for subtraction (the -inf convention is exercised by C01 / C10)',
-               'rtol 1e-12 (1e-10 for logsumexp / logaddexp whose reference is a python math.log of a sum)']
+               'rtol 1e-12 (1e-10 for logsumexp / logaddexp whose reference is a python math.log of a sum); sums additionally within 4e-15 * sum|terms| (cancellation)']
 PLAN = {
     'quick': dict(cases=320, budget_s=60, case_timeout=60, min_cases=80),
     'thorough': dict(cases=12000, budget_s=600, case_timeout=120, min_cases=2000),
@@ -88,7 +88,7 @@ def lse(vals):
     return m + math.log(sum(math.exp(v - m) for v in vals))
 
 
-def check_factor(ctx, monitor, what, fac, want_attrs, ref, sizes, rtol=1e-12, strict_order=True):
+def check_factor(ctx, monitor, what, fac, want_attrs, ref, sizes, rtol=1e-12, strict_order=True, atol=0.0):
     """fac: repository Factor; ref: function(assignment over want_attrs) -> float."""
     at, v = models.factor_parts(fac)
     if strict_order and tuple(at) != tuple(want_attrs):
@@ -101,7 +101,7 @@ def check_factor(ctx, monitor, what, fac, want_attrs, ref, sizes, rtol=1e-12, st
     for assign in assignments(at, sizes):
         want = ref(restrict(at, assign, want_attrs))
         got = float(v[assign])
-        if not _feq(got, want, rtol):
+        if not _feq(got, want, rtol) and not (atol > 0 and abs(got - want) <= atol):
             return ctx.check(False, monitor, 'value', '%s: at %r got %r, expected %r' % (
                 what, dict(zip(at, assign)), got, want))
     return ctx.check(True, monitor, '', '')
@@ -161,6 +161,8 @@ def run_case(case, ctx):
                           ('f-c', lambda a: a - c, lambda x: x - c), ('f/c', lambda a: a / c, lambda x: x / c)]:
         check_factor(ctx, 'binary', name + ' (c=%r)' % c, op(F()), fa, lambda asg, sop=sop: sop(fd[asg]), sizes)
 
+    # a sum of signed terms is accurate relative to the sum of their magnitudes, not to the (possibly cancelling) result
+    abs_sum = float(sum(abs(v) for v in fd.values()))
     # ---- aggregation over every subset ----------------------------------
     subsets = [s for k in range(0, len(fa) + 1) for s in itertools.combinations(fa, k)]
     if len(subsets) > 8:
@@ -174,11 +176,12 @@ def run_case(case, ctx):
                 fixed = dict(zip(keep, asg))
                 return agg([fd[tuple(fixed[a] if a in fixed else z[s.index(a)] for a in fa)]
                             for z in assignments(s, sizes)])
-            check_factor(ctx, 'aggregate', 'f.%s(%r)' % (name, s), res, keep, ref, sizes, rt)
+            check_factor(ctx, 'aggregate', 'f.%s(%r)' % (name, s), res, keep, ref, sizes, rt, atol=(abs_sum * 4e-15 if name == 'sum' else 0.0))
     for name, agg, rt in [('sum', sum, 1e-12), ('logsumexp', lse, 1e-10), ('max', max, 1e-12)]:
         got = float(getattr(F(), name)())
         want = agg(list(fd.values()))
-        ctx.check(_feq(got, want, rt), 'aggregate', 'value', 'f.%s() got %r want %r' % (name, got, want))
+        ctx.check(_feq(got, want, rt) or (name == 'sum' and abs(got - want) <= abs_sum * 4e-15), 'aggregate', 'value',
+                  'f.%s() got %r want %r' % (name, got, want))
 
     # ---- project (both aggregations, any ordering) -------------------------
     for _ in range(3):
@@ -191,7 +194,8 @@ def run_case(case, ctx):
                 fixed = dict(zip(tgt, asg))
                 return agg([fd[tuple(fixed[a] if a in fixed else z[rest.index(a)] for a in fa)]
                             for z in assignments(rest, sizes)])
-            check_factor(ctx, 'project', 'f.project(%r, %s)' % (tgt, agg_name), res, tgt, ref, sizes, rt)
+            check_factor(ctx, 'project', 'f.project(%r, %s)' % (tgt, agg_name), res, tgt, ref, sizes, rt,
+                         atol=(abs_sum * 4e-15 if agg_name == 'sum' else 0.0))
 
     # ---- condition ---------------------------------------------------------
     for _ in range(2):
